@@ -115,11 +115,14 @@ def evaluate_huge(case):
     import hashlib, subprocess
     size, bs, comp = case["size"], case["bs"], case["comp"]
     wd = tempfile.mkdtemp(prefix="h", dir=SCR)
-    label = "huge sparse file size=%d bs=%d comp=%s" % (size, bs, comp)
+    label = "huge %s file size=%d bs=%d comp=%s" % ("dense (no hole)" if case.get("dense") else "sparse", size, bs, comp)
     try:
         src = os.path.join(wd, "src")
         os.makedirs(src)
         marks = [(0, b"HEAD"), ((1 << 31) - 2, b"MID!"), (size - 3, b"END")]
+        if case.get("dense"):
+            # no block of the file is a hole: one non-zero byte in every block (the size passes 2^32 on a basic, not yet extended inode)
+            marks = [(i * bs + 9, b"\x01") for i in range((size - 3) // bs + 1) if i * bs + 10 <= size - 3] + [(size - 3, b"END")]
         fn = os.path.join(src, "huge")
         with open(fn, "wb") as f:
             f.truncate(size)
@@ -148,7 +151,7 @@ def evaluate_huge(case):
         r = run_tool(argv, timeout=900)
 
         def viol(fp, what):
-            return dict(status="violation", fp=fp, what=label + "\n" + what, files={"case.json": json.dumps(dict(kind="huge", size=size, bs=bs, comp=comp))},
+            return dict(status="violation", fp=fp, what=label + "\n" + what, files={"case.json": json.dumps(dict(kind="huge", size=size, bs=bs, comp=comp, dense=bool(case.get("dense"))))},
                         replay_sh="python3 /verif/checks/C01.py --replay \"$PWD\"")
         if r.timeout:
             return viol("C01|hang|gensquashfs|huge", "gensquashfs did not finish in 900 s")
@@ -295,6 +298,9 @@ def main():
         # files larger than 4 GiB via holes (thorough; one in quick): sizes around 2^32 x block sizes 128 KiB / 1 MiB
         huge = [dict(size=(1 << 32) + 4097, bs=1 << 20, comp="zstd")] if quick else \
             [dict(size=(1 << 32) + d, bs=bs, comp=comp) for d in (-1, 0, 1, 4097) for bs, comp in ((1 << 20, "zstd"), (131072, "gzip"))]
+        huge += [dict(size=(1 << 32) + (1 << 20) + 5, bs=1 << 20, comp="lz4", dense=True)]
+        if not quick:
+            huge += [dict(size=(1 << 32) + 5, bs=1 << 20, comp="zstd", dense=True), dict(size=(1 << 32) + (1 << 20), bs=1 << 20, comp="lz4", dense=True)]
         if not cr.expired():
             for c, r in zip(huge, pmap(evaluate_huge, huge, procs=4)):
                 n_eval += 1
